@@ -27,6 +27,7 @@
 #define OP_ALLOC_ARRAY 7
 #define OP_TRY_ALLOC_ARRAY 8
 #define OP_RESERVE 9
+#define OP_DEALLOC_ARRAY 10
 
 #define ST_LIVE 0
 #define ST_F16 1
@@ -34,6 +35,7 @@
 
 static uint64_t L, IO, B[2], bsz[2], ARR, cur, rest;
 static int ku;                      /* used blocks */
+static int64_t leak0;               /* net byte count of the leak checker in the pre-state (symbolic) */
 static uint64_t slot[2 * NSLOT]; static int nslots; static uint8_t sst[2 * NSLOT];
 static uint64_t lst(int i) { return ARR + (uint64_t)i * LSZ; }   /* bucket 0: node size 8, bucket 1: node size 16 */
 
@@ -94,7 +96,8 @@ static void establish(void)
     w_list_write(lst(0), first8, 8, cap8);
     w_list_write(lst(1), first16, 16, cap16);
     uint64_t next_bs = nondet_u8(); ASSUME(next_bs >= bsz[ku - 1] && next_bs <= 160 && (next_bs & 15) == 0);
-    w_cnl_set(L, ku == 1 ? B[0] : B[1], cur, ARR, 2, next_bs, 5, 0);
+    leak0 = CFG_LEAK ? (int64_t)nondet_u16() - 300 : 0;
+    w_cnl_set(L, ku == 1 ? B[0] : B[1], cur, ARR, 2, next_bs, 5, leak0);
 }
 
 static uint64_t blk_lo[3], blk_hi[3]; static int nblk;      /* usable ranges of the blocks held after the operation */
@@ -211,6 +214,9 @@ void harness(void)
         ASSERT((p & (al - 1)) == 0, "C02: node aligned for its size");
         if (cap_pre > 0) ASSERT(n_up_alloc == ups, "C04: no upstream request while the bucket's list still holds a node");
     }
+#if CFG_LEAK
+    ASSERT(w_cnl_leaked(L) == leak0 + ((OP == OP_ALLOC && !EXC && p != 0) ? (int64_t)size : 0), "C15: allocate_node counts exactly the requested size when it succeeds; a failed request and the composable interface count nothing");
+#endif
     if ((si ? m8 : m16) != (si ? pre8 : pre16)) ASSERT(0, "C01: the other bucket's list is untouched");
     ASSERT(H8(wa) == wv, "C01: live allocations and block headers untouched");
 #elif OP == OP_DEALLOC || OP == OP_TRY_DEALLOC
@@ -236,9 +242,40 @@ void harness(void)
     ASSERT(w_cnl_pool_capacity_left(L, size) == cap_pre + 1, "C18: pool_capacity_left() grows by exactly one node");
     ASSERT(H8(wa) == wv, "C01: other live allocations untouched");
     ASSERT(n_up_alloc == ups && n_up_dealloc == 0, "no upstream traffic");
+#if CFG_LEAK
+    ASSERT(w_cnl_leaked(L) == leak0 - (OP == OP_DEALLOC ? (int64_t)size : 0), "C15: deallocate_node subtracts exactly the size; the composable interface counts nothing");
+#endif
+#elif OP == OP_DEALLOC_ARRAY
+    /* release an array that occupies one LIVE slot or two adjacent LIVE slots of one block */
+    uint8_t i = nondet_u8(), cnt = nondet_u8(); ASSUME(i < nslots && cnt >= 1 && cnt <= 2 && sst[i < 2 * NSLOT ? i : 0] == ST_LIVE);
+    uint64_t nsz = si ? 16 : 8, bytes = cnt * size, nodes = (bytes + nsz - 1) / nsz, q = slot[i < 2 * NSLOT ? i : 0];
+    if (nodes * nsz > 16) ASSUME(i + 1 < nslots && sst[(i + 1) < 2 * NSLOT ? i + 1 : 0] == ST_LIVE && slot[(i + 1) < 2 * NSLOT ? i + 1 : 0] == q + 16);
+    ASSUME(!(wa >= q && wa < q + nodes * nsz));
+    wv = H8(wa);
+    nblk = 0;
+    for (int b = 0; b < 2; ++b) if (b < ku) { blk_lo[nblk] = B[b] + IO; blk_hi[nblk] = B[b] + bsz[b]; nblk++; }
+    w_cnl_deallocate_array(L, q, cnt, size, al);
+    walk(&m8, &m16, &e8, &e16, xa, &nx);
+    { uint32_t bits = 0;
+      for (uint64_t k2 = 0; k2 < 2; ++k2) if (k2 < nodes) bits |= (si ? 3u : 1u) << (2 * i + (si ? 2 * k2 : k2));
+      ASSERT((si ? m16 : m8) == (pre_mask | bits), "C04: deallocate_array gives back exactly the ceil(bytes / node_size) nodes the array occupied");
+      ASSERT((si ? m8 : m16) == (si ? pre8 : pre16), "C01: the other bucket is untouched"); }
+    ASSERT(w_cnl_pool_capacity_left(L, size) == cap_pre + nodes, "C18: pool_capacity_left() grows by exactly the array's nodes");
+    ASSERT(H8(wa) == wv, "C01: other live allocations untouched");
+    ASSERT(n_up_alloc == ups && n_up_dealloc == 0, "no upstream traffic");
+#if CFG_LEAK
+    ASSERT(w_cnl_leaked(L) == leak0 - (int64_t)bytes, "C15: deallocate_array subtracts count*size");
+#endif
 #elif OP == OP_DTOR
+    n_leak = 0;
     w_cnl_dtor(L);
     ASSERT(outstanding() == 0 && n_up_dealloc == ku, "C05: destructor returns every block exactly once, newest first (checked by the hook)");
+#if CFG_LEAK
+    ASSERT(n_leak == (leak0 != 0), "C15: leak handler called exactly once iff the net count is non-zero");
+    if (leak0 != 0) ASSERT(leak_amount == leak0, "C15: leak handler receives the exact net amount");
+#else
+    ASSERT(n_leak == 0, "C15: no report without leak checking");
+#endif
 #elif OP == OP_RESERVE
     /* reserve(node_size, capacity): documented to put `capacity` bytes of the arena onto the bucket's free list */
     uint64_t ns = si ? 16 : 8;
@@ -277,6 +314,9 @@ void harness(void)
         for (int j = 0; j < 12; ++j) if (j < nx) ASSERT(p + bytes <= xa[j] || xa[j] + 8 <= p, "C01: the array does not overlap a node that is still on a bucket list");
         ASSERT((p & (al - 1)) == 0, "C02: array aligned for its element size");
     }
+#if CFG_LEAK
+    ASSERT(w_cnl_leaked(L) == leak0 + ((OP == OP_ALLOC_ARRAY && !EXC && p != 0) ? (int64_t)(cnt * size) : 0), "C15: allocate_array counts count*size when it succeeds; failures and the composable interface count nothing");
+#endif
     ASSERT(H8(wa) == wv, "C01: live allocations and block headers untouched");
 #else
 #error "OP"
